@@ -762,6 +762,13 @@ func (c *Ctx) callOrderInsensitive(fn *ssa.Function, call *ssa.Call, li loopInfo
 		if ok, why := c.onlyKeyedInserts(f); ok {
 			return true, why
 		}
+		if usesHashObject(f) {
+			// a helper that hashes with an object handed in from outside the loop: per element only if it resets it first
+			if ok, why := c.perCallEffectsOnly(f); !ok {
+				return false, "calls " + core.FuncName(f) + ", which " + why
+			}
+			return true, "helper hashing one element at a time (Reset before Write on every path)"
+		}
 		if c.isPure(f, 0) {
 			return true, ""
 		}
@@ -1192,6 +1199,55 @@ func (c *Ctx) checkBuilderErrors() {
 	r.Floor("D4", n, 15)
 }
 
+// usesHashObject: f writes to or sums a hash.Hash-like interface value (an interface with Reset and Sum).
+func usesHashObject(f *ssa.Function) bool {
+	for _, ci := range core.CallsIn(f) {
+		cc := ci.Common()
+		if !cc.IsInvoke() {
+			continue
+		}
+		switch cc.Method.Name() {
+		case "Write", "Sum", "Sum64", "Sum32":
+			if it, ok := cc.Value.Type().Underlying().(*types.Interface); ok {
+				hasReset, hasSum := false, false
+				for i := 0; i < it.NumMethods(); i++ {
+					switch it.Method(i).Name() {
+					case "Reset":
+						hasReset = true
+					case "Sum":
+						hasSum = true
+					}
+				}
+				if hasReset && hasSum {
+					return true
+				}
+			}
+		}
+	}
+	return false
+}
+
+// freshObject: the value is the result of a call made in this very function (a hasher made per call has no history).
+func freshObject(v ssa.Value) bool {
+	for i := 0; i < 4; i++ {
+		switch x := v.(type) {
+		case *ssa.Call:
+			return !x.Call.IsInvoke()
+		case *ssa.Extract:
+			v = x.Tuple
+		case *ssa.TypeAssert:
+			v = x.X
+		case *ssa.ChangeInterface:
+			v = x.X
+		case *ssa.MakeInterface:
+			v = x.X
+		default:
+			return false
+		}
+	}
+	return false
+}
+
 // perCallEffectsOnly: t keeps nothing from one call to the next: it writes no captured variable, global or heap object,
 // and every stateful hash object it uses (Write/Sum on an interface value) is Reset in t before the first Write.
 func (c *Ctx) perCallEffectsOnly(t *ssa.Function) (bool, string) {
@@ -1231,6 +1287,9 @@ func (c *Ctx) perCallEffectsOnly(t *ssa.Function) (bool, string) {
 			case "Reset":
 				continue
 			case "Write", "Sum", "Sum64", "Sum32":
+				if freshObject(cc.Value) {
+					continue
+				}
 				rc := resets[obj(cc.Value)]
 				if rc == nil || !(rc.Block() == call.Block() && rc.Pos() < call.Pos() || rc.Block() != call.Block() && rc.Block().Dominates(call.Block())) {
 					return false, "feeds a hash object kept between calls without resetting it first (the result depends on the names hashed before)"
